@@ -1,8 +1,9 @@
 """C14 — a superrun is exactly the ordered concatenation of its subruns.
 
 Model: lean/StraxModel/Model/Superrun.lean (+ Chunk.lean / Rechunk.lean, Generated/RunDoc.lean); theorems: Props/C14.lean
-(26: 16 full, 8 `_partial`, 2 witnesses).
-Step 0 (`regen`): does DataDirectory.write_run_metadata pass sort_keys=True?  -> Generated/RunDoc.lean.
+(40: 28 full incl. 8 `generated_*`, 8 `_partial`, 4 witnesses).
+Step 0 (`regen`): does DataDirectory.write_run_metadata pass sort_keys=True?  -> Generated/RunDoc.lean; the if/elif chain of
+`_split_runs_in_chunk`, the sort key of the `Chunk.subruns` setter and the test of `_sorted_subruns_check` -> Generated/SplitRuns.lean.
 Tie: REAL contexts (DataDirectory with run documents written by the harness, a linear chain of 2..4 harness plugins
 whose source places every subrun on its own time range through an untracked layout option) are driven through
 `define_run` (list form, or dict form with per-subrun [start, end] windows) -> optional `make` of a lower level ->
@@ -40,7 +41,7 @@ from lib.straxlib import strax
 ID = "C14"
 LEAN_MODULES = ["StraxModel.Props.C14"]
 TRUSTED = [
-    "translator (here: extraction of the sort_keys argument of DataDirectory.write_run_metadata into Generated/RunDoc.lean)",
+    "translator (here: extraction of the sort_keys argument of DataDirectory.write_run_metadata into Generated/RunDoc.lean; if/elif chain of _split_runs_in_chunk, sort key of the subruns setter, test of _sorted_subruns_check into Generated/SplitRuns.lean; `int(t)` read as the identity on the model's Int)",
     "harness plugins: a source that emits the chunk layout given by an untracked option, row-wise copy plugins above it",
     "run documents written by the harness into DataDirectory._run_meta_path (datetimes through bson.json_util)",
     "modelled not verified: JSON round trip of chunk metadata (sort_keys), sha1/base32 of DataKey (abstract injective H)",
@@ -90,6 +91,308 @@ def regen(ctx):
     text = ("-- GENERATED by checks/props/c14.py:regen from /repo/strax/storage/files.py (DataDirectory.write_run_metadata). Do not edit.\n"
             "namespace Strax.Generated\n"
             f"def runDocSortKeys : Bool := {'true' if val else 'false'}\n"
+            "end Strax.Generated\n")
+    if not out.exists() or out.read_text() != text:
+        out.write_text(text)
+    _regen_split_runs(ctx)
+
+
+class Untranslatable(Exception):
+    pass
+
+
+_CMP = {ast.LtE: "≤", ast.Lt: "<", ast.GtE: "≥", ast.Gt: ">", ast.Eq: "=", ast.NotEq: "≠"}
+_FIELD = {"start": "start", "end": "stop"}
+
+
+def _tr_scalar(e, env):
+    """scalar expression over the split time and the fields of one run span.  env: python name -> lean name for plain
+    ints, and '<dictname>' -> suffix for names bound to a {"start", "end"} dict"""
+    if isinstance(e, ast.Name) and e.id in env["ints"]:
+        return env["ints"][e.id]
+    if isinstance(e, ast.Call) and isinstance(e.func, ast.Name) and e.func.id == "int" and len(e.args) == 1 and not e.keywords:
+        return _tr_scalar(e.args[0], env)      # int(t): identity on the model's Int
+    if isinstance(e, ast.Subscript) and isinstance(e.slice, ast.Constant) and e.slice.value in _FIELD:
+        base = env["span"](e.value)
+        if base is not None:
+            return _FIELD[e.slice.value] + base
+    if isinstance(e, ast.Constant) and isinstance(e.value, int) and not isinstance(e.value, bool):
+        return f"({e.value})"
+    raise Untranslatable(f"scalar expression {ast.dump(e)[:80]}")
+
+
+def _tr_test(e, env):
+    if isinstance(e, ast.Compare):
+        terms = [e.left] + list(e.comparators)
+        parts = []
+        for op, a, b in zip(e.ops, terms, terms[1:]):
+            if type(op) not in _CMP:
+                raise Untranslatable(f"comparison {type(op).__name__}")
+            parts.append(f"({_tr_scalar(a, env)} {_CMP[type(op)]} {_tr_scalar(b, env)})")
+        return parts[0] if len(parts) == 1 else "(" + " ∧ ".join(parts) + ")"
+    if isinstance(e, ast.BoolOp):
+        j = " ∧ " if isinstance(e.op, ast.And) else " ∨ "
+        return "(" + j.join(_tr_test(v, env) for v in e.values) + ")"
+    if isinstance(e, ast.UnaryOp) and isinstance(e.op, ast.Not):
+        return f"(¬ {_tr_test(e.operand, env)})"
+    raise Untranslatable(f"test {ast.dump(e)[:80]}")
+
+
+def _tr_split_runs(fn):
+    """the if/elif chain in the loop of _split_runs_in_chunk -> body of Generated.splitRunCase"""
+    if [a.arg for a in fn.args.args] != ["subruns", "t"] or fn.args.vararg or fn.args.kwarg or fn.args.defaults:
+        raise Untranslatable("signature of _split_runs_in_chunk")
+    loops = [n for n in fn.body if isinstance(n, ast.For)]
+    rets = [n for n in fn.body if isinstance(n, ast.Return)]
+    if len(loops) != 1 or len(rets) != 1 or [n for n in ast.walk(fn) if isinstance(n, (ast.While, ast.Try))]:
+        raise Untranslatable("one for loop and one final return expected")
+    loop, ret = loops[0], rets[0]
+    if not (isinstance(ret.value, ast.Tuple) and len(ret.value.elts) == 2 and all(isinstance(x, ast.Name) for x in ret.value.elts)):
+        raise Untranslatable("return of two names expected")
+    first, second = (x.id for x in ret.value.elts)
+    it = loop.iter
+    if not (isinstance(it, ast.Call) and isinstance(it.func, ast.Attribute) and it.func.attr == "items" and isinstance(it.func.value, ast.Name)
+            and it.func.value.id == "subruns" and isinstance(loop.target, ast.Tuple) and len(loop.target.elts) == 2
+            and all(isinstance(x, ast.Name) for x in loop.target.elts)) or loop.orelse:
+        raise Untranslatable("for key, value in subruns.items() expected")
+    kname, vname = (x.id for x in loop.target.elts)
+    if len(loop.body) != 1 or not isinstance(loop.body[0], ast.If):
+        raise Untranslatable("loop body must be one if/elif chain")
+    env = {"ints": {"t": "t"}, "span": lambda b: "" if isinstance(b, ast.Name) and b.id == vname else None}
+
+    def span(v):
+        if isinstance(v, ast.Name) and v.id == vname:
+            return "some (start, stop)"
+        if isinstance(v, ast.Dict) and [getattr(k, "value", None) for k in v.keys] == ["start", "end"]:
+            return f"some ({_tr_scalar(v.values[0], env)}, {_tr_scalar(v.values[1], env)})"
+        raise Untranslatable(f"span value {ast.dump(v)[:80]}")
+
+    def branch(stmts):
+        got = {first: "none", second: "none"}
+        for st in stmts:
+            if isinstance(st, ast.Pass):
+                continue
+            if not (isinstance(st, ast.Assign) and len(st.targets) == 1 and isinstance(st.targets[0], ast.Subscript)
+                    and isinstance(st.targets[0].value, ast.Name) and st.targets[0].value.id in got
+                    and isinstance(st.targets[0].slice, ast.Name) and st.targets[0].slice.id == kname):
+                raise Untranslatable(f"branch statement {ast.dump(st)[:80]}")
+            got[st.targets[0].value.id] = span(st.value)
+        return f"({got[first]}, {got[second]})"
+
+    def chain(node):
+        txt = f"if {_tr_test(node.test, env)} then {branch(node.body)}\n  else "
+        if not node.orelse:
+            return txt + "(none, none)"
+        if len(node.orelse) == 1 and isinstance(node.orelse[0], ast.If):
+            return txt + chain(node.orelse[0])
+        return txt + branch(node.orelse)
+
+    return chain(loop.body[0])
+
+
+def _tr_sort_key(cls):
+    """Chunk.subruns setter: sorted(subruns.items(), key=lambda x: (x[1][f1], x[1][f2], ...)) -> lexicographic <= on the key"""
+    setters = [n for n in cls.body if isinstance(n, ast.FunctionDef) and n.name == "subruns"
+               and any(isinstance(d, ast.Attribute) and d.attr == "setter" for d in n.decorator_list)]
+    if len(setters) != 1:
+        raise Untranslatable("one subruns setter expected")
+    calls = [c for c in ast.walk(setters[0]) if isinstance(c, ast.Call) and isinstance(c.func, ast.Name) and c.func.id == "sorted"]
+    checks = [c for c in ast.walk(setters[0]) if isinstance(c, ast.Call) and isinstance(c.func, ast.Name) and c.func.id == "_sorted_subruns_check"]
+    if len(calls) != 1 or len(checks) != 1:
+        raise Untranslatable("one sorted(...) call followed by _sorted_subruns_check expected in the subruns setter")
+    kws = {k.arg: k.value for k in calls[0].keywords}
+    if set(kws) != {"key"} or not isinstance(kws["key"], ast.Lambda) or len(kws["key"].args.args) != 1:
+        raise Untranslatable("sorted(..., key=lambda x: ...) without reverse expected")
+    x = kws["key"].args.args[0].arg
+    body = kws["key"].body
+    elts = body.elts if isinstance(body, ast.Tuple) else [body]
+    fields = []
+    for e in elts:
+        if not (isinstance(e, ast.Subscript) and isinstance(e.slice, ast.Constant) and e.slice.value in _FIELD
+                and isinstance(e.value, ast.Subscript) and isinstance(e.value.value, ast.Name) and e.value.value.id == x
+                and isinstance(e.value.slice, ast.Constant) and e.value.slice.value == 1):
+            raise Untranslatable(f"sort key element {ast.dump(e)[:80]}")
+        fields.append(_FIELD[e.slice.value])
+    if not fields:
+        raise Untranslatable("empty sort key")
+
+    def le(fs):
+        if len(fs) == 1:
+            return f"({fs[0]}1 ≤ {fs[0]}2)"
+        return f"(({fs[0]}1 < {fs[0]}2) ∨ (({fs[0]}1 = {fs[0]}2) ∧ {le(fs[1:])}))"
+
+    return le(fields)
+
+
+def _tr_overlap_check(fn):
+    """_sorted_subruns_check: for i in range(len(xs) - 1): if xs[i][f] OP xs[i + 1][g]: raise ValueError"""
+    loops = [n for n in fn.body if isinstance(n, ast.For)]
+    if len(loops) != 1 or len(loops[0].body) != 1 or not isinstance(loops[0].body[0], ast.If) or loops[0].orelse:
+        raise Untranslatable("one for loop with one if expected in _sorted_subruns_check")
+    loop = loops[0]
+    iff = loop.body[0]
+    rng_ok = (isinstance(loop.iter, ast.Call) and isinstance(loop.iter.func, ast.Name) and loop.iter.func.id == "range" and len(loop.iter.args) == 1
+              and isinstance(loop.iter.args[0], ast.BinOp) and isinstance(loop.iter.args[0].op, ast.Sub)
+              and isinstance(loop.iter.args[0].right, ast.Constant) and loop.iter.args[0].right.value == 1
+              and isinstance(loop.target, ast.Name))
+    if not rng_ok or iff.orelse or len(iff.body) != 1 or not isinstance(iff.body[0], ast.Raise):
+        raise Untranslatable("range(len(xs) - 1) / if …: raise expected")
+    exc = iff.body[0].exc
+    if not (isinstance(exc, ast.Call) and isinstance(exc.func, ast.Name) and exc.func.id == "ValueError"):
+        raise Untranslatable("raise ValueError expected")
+    i = loop.target.id
+
+    def which(b):
+        # xs[i] -> "1", xs[i + 1] -> "2"
+        if isinstance(b, ast.Subscript) and isinstance(b.value, ast.Name):
+            if isinstance(b.slice, ast.Name) and b.slice.id == i:
+                return "1"
+            s = b.slice
+            if (isinstance(s, ast.BinOp) and isinstance(s.op, ast.Add) and isinstance(s.left, ast.Name) and s.left.id == i
+                    and isinstance(s.right, ast.Constant) and s.right.value == 1):
+                return "2"
+        return None
+
+    return _tr_test(iff.test, {"ints": {}, "span": which})
+
+
+def _tr_pop_empty(fn):
+    """_pop_out_empty_run_id: for key in subruns.keys(): if subruns[key][f] OP subruns[key][g]: keys_to_remove.append(key)"""
+    loops = [n for n in fn.body if isinstance(n, ast.For)]
+    if len(loops) != 2 or len(loops[0].body) != 1 or not isinstance(loops[0].body[0], ast.If) or loops[0].body[0].orelse:
+        raise Untranslatable("collect loop with one if + removal loop expected in _pop_out_empty_run_id")
+    loop = loops[0]
+    if not (isinstance(loop.target, ast.Name) and len(loop.body[0].body) == 1 and isinstance(loop.body[0].body[0], ast.Expr)
+            and isinstance(loop.body[0].body[0].value, ast.Call) and getattr(loop.body[0].body[0].value.func, "attr", None) == "append"):
+        raise Untranslatable("if …: keys_to_remove.append(key) expected")
+    rm = loops[1]
+    if not (len(rm.body) == 1 and isinstance(rm.body[0], ast.Expr) and isinstance(rm.body[0].value, ast.Call)
+            and getattr(rm.body[0].value.func, "attr", None) == "pop"):
+        raise Untranslatable("for key in keys_to_remove: subruns.pop(key) expected")
+    k = loop.target.id
+
+    def which(b):
+        return "" if (isinstance(b, ast.Subscript) and isinstance(b.value, ast.Name) and b.value.id == "subruns"
+                      and isinstance(b.slice, ast.Name) and b.slice.id == k) else None
+
+    return _tr_test(loop.body[0].test, {"ints": {}, "span": which})
+
+
+def _tr_mergable(fn):
+    """_mergable_check: the two raise conditions (concatenate mode: against the previous span; merge mode: against span 0)"""
+    outer = [n for n in fn.body if isinstance(n, ast.For)]
+    if len(outer) != 1 or not isinstance(outer[0].target, ast.Name):
+        raise Untranslatable("one loop over the run ids expected in _mergable_check")
+    rid = outer[0].target.id
+    ifs = [n for n in outer[0].body if isinstance(n, ast.If)]
+    if len(ifs) != 1 or not (isinstance(ifs[0].test, ast.UnaryOp) and isinstance(ifs[0].test.op, ast.Not)
+                             and isinstance(ifs[0].test.operand, ast.Name) and ifs[0].test.operand.id == "merge"):
+        raise Untranslatable("if not merge: … else: … expected")
+
+    def mode(stmts):
+        if len(stmts) != 1 or not isinstance(stmts[0], ast.For) or not isinstance(stmts[0].target, ast.Name):
+            raise Untranslatable("one loop over i expected")
+        loop = stmts[0]
+        it = loop.iter
+        if not (isinstance(it, ast.Call) and isinstance(it.func, ast.Name) and it.func.id == "range" and len(it.args) == 2
+                and isinstance(it.args[0], ast.Constant) and it.args[0].value == 1):
+            raise Untranslatable("range(1, len(...)) expected")
+        i = loop.target.id
+
+        def scalar(e):
+            # merged_runs[run_id][IDX][0|1]
+            if not (isinstance(e, ast.Subscript) and isinstance(e.slice, ast.Constant) and e.slice.value in (0, 1)
+                    and isinstance(e.value, ast.Subscript) and isinstance(e.value.value, ast.Subscript)
+                    and isinstance(e.value.value.slice, ast.Name) and e.value.value.slice.id == rid):
+                raise Untranslatable(f"span field {ast.dump(e)[:80]}")
+            idx = e.value.slice
+            f = ("start", "stop")[e.slice.value]
+            if isinstance(idx, ast.Name) and idx.id == i:
+                return f + "C"
+            if isinstance(idx, ast.Constant) and idx.value == 0:
+                return f + "0"
+            if (isinstance(idx, ast.BinOp) and isinstance(idx.op, ast.Sub) and isinstance(idx.left, ast.Name) and idx.left.id == i
+                    and isinstance(idx.right, ast.Constant) and idx.right.value == 1):
+                return f + "P"
+            raise Untranslatable(f"span index {ast.dump(idx)[:80]}")
+
+        def cmp(e):
+            if not (isinstance(e, ast.Compare) and len(e.ops) == 1 and type(e.ops[0]) in _CMP):
+                raise Untranslatable(f"mask {ast.dump(e)[:80]}")
+            return f"({scalar(e.left)} {_CMP[type(e.ops[0])]} {scalar(e.comparators[0])})"
+
+        terms, var, raised = [], None, False
+        for st in loop.body:
+            if isinstance(st, ast.Assign) and len(st.targets) == 1 and isinstance(st.targets[0], ast.Name) and not terms:
+                var = st.targets[0].id
+                terms.append(cmp(st.value))
+            elif isinstance(st, ast.AugAssign) and isinstance(st.op, ast.BitOr) and isinstance(st.target, ast.Name) and st.target.id == var:
+                terms.append(cmp(st.value))
+            elif (isinstance(st, ast.If) and isinstance(st.test, ast.Name) and st.test.id == var and not st.orelse and len(st.body) == 1
+                  and isinstance(st.body[0], ast.Raise) and getattr(getattr(st.body[0].exc, "func", None), "id", None) == "ValueError"):
+                raised = True
+            else:
+                raise Untranslatable(f"statement {ast.dump(st)[:80]}")
+        if not raised or not terms:
+            raise Untranslatable("mask = …; if mask: raise ValueError expected")
+        return terms[0] if len(terms) == 1 else "(" + " ∨ ".join(terms) + ")"
+
+    return mode(ifs[0].body), mode(ifs[0].orelse)
+
+
+def _regen_split_runs(ctx):
+    """Generated/SplitRuns.lean: the three-way case split of _split_runs_in_chunk, the sort key of the Chunk.subruns setter and
+    the test of _sorted_subruns_check, from the CURRENT source of strax/chunk.py"""
+    out = LEAN / "StraxModel" / "Generated" / "SplitRuns.lean"
+    parts = {}
+    try:
+        tree = ast.parse((REPO / "strax" / "chunk.py").read_text())
+    except SyntaxError as e:
+        tree = None
+        err = str(e)
+    for key, find, tr in (
+            ("_split_runs_in_chunk", lambda n: isinstance(n, ast.FunctionDef) and n.name == "_split_runs_in_chunk", _tr_split_runs),
+            ("Chunk.subruns.setter", lambda n: isinstance(n, ast.ClassDef) and n.name == "Chunk", _tr_sort_key),
+            ("_sorted_subruns_check", lambda n: isinstance(n, ast.FunctionDef) and n.name == "_sorted_subruns_check", _tr_overlap_check),
+            ("_pop_out_empty_run_id", lambda n: isinstance(n, ast.FunctionDef) and n.name == "_pop_out_empty_run_id", _tr_pop_empty),
+            ("_mergable_check", lambda n: isinstance(n, ast.FunctionDef) and n.name == "_mergable_check", _tr_mergable)):
+        try:
+            if tree is None:
+                raise Untranslatable(f"chunk.py does not parse: {err}")
+            nodes = [n for n in ast.walk(tree) if find(n)]
+            if len(nodes) != 1:
+                raise Untranslatable(f"{len(nodes)} definitions found")
+            parts[key] = tr(nodes[0])
+            ctx.translator[key] = "translated"
+        except Untranslatable as e:
+            ctx.translator[key] = f"untranslatable: {e}"
+            ctx.violation(f"translator:{key}", "translator", None, {"reason": str(e)},
+                          f"translator regenerates Generated/SplitRuns.lean from the source of {key}", False)
+    if len(parts) != 5:
+        return
+    text = ("-- GENERATED by checks/props/c14.py:regen from /repo/strax/chunk.py (_split_runs_in_chunk, the Chunk.subruns setter,\n"
+            "-- _sorted_subruns_check, _pop_out_empty_run_id, _mergable_check). Do not edit.\n"
+            "set_option linter.unusedVariables false\n"
+            "namespace Strax.Generated\n"
+            "/-- the if/elif chain inside the loop of `_split_runs_in_chunk` for one run span `[start, stop)` and split time `t`:\n"
+            "(entry put into runs_first_chunk, entry put into runs_second_chunk); `none` = no entry -/\n"
+            "def splitRunCase (t start stop : Int) : Option (Int × Int) × Option (Int × Int) :=\n"
+            f"  {parts['_split_runs_in_chunk']}\n"
+            "/-- `key=` of the `sorted(...)` call in the `subruns` setter, as `key(run 1) ≤ key(run 2)` (tuples compare lexicographically) -/\n"
+            "def subrunsKeyLe (start1 stop1 start2 stop2 : Int) : Bool :=\n"
+            f"  decide {parts['Chunk.subruns.setter']}\n"
+            "/-- `_sorted_subruns_check`: the test on consecutive entries 1, 2 that raises ValueError -/\n"
+            "def subrunsOverlap (start1 stop1 start2 stop2 : Int) : Bool :=\n"
+            f"  decide {parts['_sorted_subruns_check']}\n"
+            "/-- `_pop_out_empty_run_id`: the test that removes a run's entry -/\n"
+            "def popEmptyTest (start stop : Int) : Bool :=\n"
+            f"  decide {parts['_pop_out_empty_run_id']}\n"
+            "/-- `_mergable_check`, `merge=False` (concatenate): span C (current) against span P (previous) raises ValueError -/\n"
+            "def mergeMaskConcat (startC stopC startP stopP : Int) : Bool :=\n"
+            f"  decide {parts['_mergable_check'][0]}\n"
+            "/-- `_mergable_check`, `merge=True`: span C (current) against span 0 (first) raises ValueError -/\n"
+            "def mergeMaskMerge (startC stopC start0 stop0 : Int) : Bool :=\n"
+            f"  decide {parts['_mergable_check'][1]}\n"
             "end Strax.Generated\n")
     if not out.exists() or out.read_text() != text:
         out.write_text(text)
@@ -723,6 +1026,34 @@ def oracle_splitruns(case, out):
     return None
 
 
+def _setter_rc(case):
+    return sl.raw_chunk(data_type="d", kind="k", run_id="_s", start=0, end=case["end"], rows=(), subruns=sl.parse_runs(case["runs"]))
+
+
+def impl_setter(case):
+    """the `subruns` setter of the REAL Chunk.__init__ on a dict given in the case's insertion order"""
+    return sl.guarded(lambda: sl.show_chunk(sl.build_chunk(_setter_rc(case))))
+
+
+def op_setter(case):
+    return "c14.mkchunk " + sl.raw_chunk_op(_setter_rc(case))
+
+
+def oracle_setter(case, out):
+    """a chunk records its subruns in order of (start, end), never overlapping; overlapping spans are refused"""
+    given = list(sl.parse_runs(case["runs"]).items())
+    exp = sorted(given, key=lambda kv: (kv[1]["start"], kv[1]["end"]))      # stable, like dict(sorted(...))
+    overlap = any(exp[i][1]["end"] > exp[i + 1][1]["start"] for i in range(len(exp) - 1))
+    if out.startswith("err"):
+        return None if (overlap and out == "err ValueError") else f"constructor raised {out} on {'overlapping' if overlap else 'non-overlapping'} subruns {case['runs']}"
+    if overlap:
+        return f"chunk accepted overlapping subruns {case['runs']}"
+    got = list(sl.parse_runs(out.split("|")[6]).items())
+    if got != exp:
+        return f"chunk records subruns {got}, expected the given spans in (start, end) order {exp}"
+    return None
+
+
 # ----------------------------------------------------------------------------- generators
 NAMES = ["a", "b", "c", "d", "zz", "r10", "r9", "m"]
 
@@ -903,6 +1234,18 @@ def run(ctx):
                    exhaustive=True, nontrivial=lambda c, o: c["runs"] != "{}",
                    rule=f"all dicts of <= 3 sorted non-overlapping spans (empty spans and shared borders included) on grid 0..{grid} x every t in -1..{grid+1}; oracle: halves merge back (_merge_runs_in_chunk + _mergable_check) to the non-empty spans and lie on their side of t",
                    branch=lambda c, o: "cut" if any(v["end"] == c["t"] for v in (sl.parse_runs(o.split(" ")[1]) or {}).values()) and any(v["start"] == c["t"] for v in (sl.parse_runs(o.split(" ")[2]) or {}).values()) else "nocut")
+
+    # 1b. (round 5) the `subruns` setter: order by (start, end) + overlap test, exhaustive small scope, any insertion order
+    sgrid = ctx.pick(3, 4)
+    spans = [(a, b) for a in range(sgrid + 1) for b in range(a, sgrid + 1)]
+    cases = []
+    for k in range(0, 4):
+        for combo in itertools.product(spans, repeat=k):
+            cases.append(dict(runs=sl.show_runs({f"s{i}": {"start": a, "end": b} for i, (a, b) in enumerate(combo)}), end=sgrid + 1))
+    ctx.correspond("subruns_setter/exhaustive", cases, impl_setter, op_setter, oracle_setter, exhaustive=True,
+                   nontrivial=lambda c, o: c["runs"].count(":") >= 4,
+                   rule=f"all dicts of <= 3 spans [a,b], a <= b on grid 0..{sgrid}, in every insertion order (overlapping and equal spans included) given to the real Chunk constructor; oracle: recorded in (start, end) order, stable, or ValueError iff two consecutive spans of that order overlap",
+                   branch=lambda c, o: "err" if o.startswith("err") else ("reordered" if o.split("|")[6] != c["runs"] else "kept"))
 
     # 2. define_run ordering
     cases = []
@@ -1110,12 +1453,24 @@ def search(ctx):
     rng = ctx.rng
     cases = [gen_case(rng, "adjacent") for _ in range(300)]
     ctx.check_oracle("search/superrun", cases, impl_super, oracle_super)
+    # round 5: the translated decisions on wider random scopes (spans sorted and non-overlapping for the split law, any for the setter)
+    cases = []
+    for _ in range(3000):
+        k = rng.randint(1, 5)
+        b = sorted(rng.randint(0, 12) for _ in range(2 * k))
+        cases.append(dict(runs=sl.show_runs({f"s{i}": {"start": b[2 * i], "end": b[2 * i + 1]} for i in range(k)}), t=rng.randint(-1, 13)))
+    ctx.check_oracle("search/split_runs", cases, impl_splitruns, oracle_splitruns)
+    cases = []
+    for _ in range(3000):
+        sp = [sorted((rng.randint(0, 8), rng.randint(0, 8))) for _ in range(rng.randint(1, 5))]
+        cases.append(dict(runs=sl.show_runs({f"s{i}": {"start": a, "end": b} for i, (a, b) in enumerate(sp)}), end=9))
+    ctx.check_oracle("search/subruns_setter", cases, impl_setter, oracle_setter)
 
 
 REPLAYERS = {
     "superrun": (impl_super, oracle_super), "split_runs": (impl_splitruns, oracle_splitruns), "define_run": (impl_definerun, oracle_definerun),
     "data_key": (impl_samekey, oracle_samekey), "plugin_iter": (impl_iter, oracle_iter), "concatenate_superrun": (impl_concat, oracle_concat),
-    "continuity_superrun": (impl_continuity, oracle_continuity),
+    "continuity_superrun": (impl_continuity, oracle_continuity), "subruns_setter": (impl_setter, oracle_setter),
 }
 
 
